@@ -198,6 +198,37 @@ def run(ctx, p):
             continue
         ctx.observe("api.container", name, same_records(sol, other), branch=label,
                     detail=dict(n=len(sol), names=list(sol.dtype.names)))
+    # ---- times outside the domain (t = 0, t < 0): whatever a solver answers there - NaN, zeros, an exception - a call that
+    #      returns is still a call: N records, the positions as passed, the caller's array untouched (online monitors)
+    if rep % 2 == 0:
+        for tq in (0.0, -1.0):
+            try:
+                ctx.call(s, np.array(a, copy=True), tq)
+                ctx.count("calls_at_t<=0_answered")
+            except SolverRaised:
+                ctx.count("calls_at_t<=0_refused")
+    # ---- an integer-valued scalar parameter given as a Python int: 1 and 1.0 are the same parameter value -----------------
+    if cheap and e["build"] is None and rep % 3 != 1:
+        cand = [k for k, v in sorted(d["passed"].items()) if isinstance(v, float) and k != "geometry" and abs(v) >= 0.5 and abs(v) < 1e6]
+        rng_i = np.random.default_rng(p["seed"] + 7)
+        rng_i.shuffle(cand)
+        for k in cand[:4]:
+            vi = int(round(d["passed"][k]))
+            if vi == 0:
+                continue
+            try:
+                s_f = ctx.make(cls, **dict(d["passed"], **{k: float(vi)}))
+                r_f = ctx.call(s_f, np.array(a, copy=True), t)
+            except SolverRaised:
+                continue                         # the rounded value is not admissible for this class: not a case
+            try:
+                s_i = ctx.make(cls, **dict(d["passed"], **{k: vi}))
+                r_i = ctx.call(s_i, np.array(a, copy=True), t)
+                ctx.observe("api.ctor", name, same_records(r_f, r_i), branch="integer-typed parameter value (%s given as int)" % k,
+                            detail=dict(parameter=k, value=vi, n=len(sol)))
+            except SolverRaised as ex:
+                ctx.observe("api.ctor", name, False, branch="integer-typed parameter value (%s given as int)" % k,
+                            detail=dict(parameter=k, value=vi, raised=str(ex)[:160]))
     # ---- one ndarray object, re-filled in place between two calls (a host code's coordinate buffer) --------------------------
     # the second call must answer for the values the array holds *now*: compared with a call on a fresh copy
     if cheap and not e["grid"] and len(sol) >= 2:
